@@ -118,46 +118,44 @@ class PrintUsingFormatter:
 
 
     def format_number(self, fmt, value, options):
-        fmt_str = '{:'
-        if options.get('comma', False):
-            fmt_str += ','
+        # fmt stands for the whole field (one character per position,
+        # including sign positions, commas and the decimal point)
+        width = len(fmt)
+        sign_pos, sign_type = options.get('sign', (None, None))
+
+        # the number of digit positions after the decimal point
+        decimals = 0
         if 'decimal_point' in options:
-            fmt_str += '.'
-            fmt_str += str(len(fmt) - options['decimal_point'])
-            fmt_str += 'f'
-        fmt_str += '}'
+            decimals = width - options['decimal_point']
+            if sign_pos == 'end':
+                decimals -= 1
 
-        if 'sign' in options:
-            sign_pos, sign_type = options['sign']
-        else:
-            sign_pos, sign_type = 'begin', '-'
+        negative = value < 0
+        digits = '{:{comma}.{decimals}f}'.format(
+            abs(value),
+            comma=',' if options.get('comma', False) else '',
+            decimals=decimals)
+        if 'decimal_point' in options and decimals == 0:
+            digits += '.'
 
-        sign = -1 if value < 0 else 1
-        value = abs(value)
+        def with_sign(digits):
+            if sign_pos == 'begin' and sign_type == '+':
+                return ('-' if negative else '+') + digits
+            elif sign_pos == 'end' and sign_type == '+':
+                return digits + ('-' if negative else '+')
+            elif sign_pos == 'end':
+                return digits + ('-' if negative else ' ')
+            else:
+                # no sign position: a minus sign takes a digit position
+                return ('-' if negative else '') + digits
 
-        result = fmt_str.format(value)
+        result = with_sign(digits)
+        if len(result) > width and digits.startswith('0.'):
+            # the leading zero is dropped when there is no room for it
+            result = with_sign(digits[1:])
 
-        if sign_type == '-':
-            sign = '-' if sign == -1 else ' '
-        else:
-            sign = '-' if sign == -1 else '+'
+        if len(result) > width:
+            # the value does not fit into the field
+            return '%' + result
 
-        if sign_pos == 'begin':
-            result = sign + result
-        else:
-            result = result + sign
-            if sign != '-':
-                result = ' ' + result
-
-        if len(result) < len(fmt):
-            result = ' ' * (len(fmt) - len(result)) + result
-
-        if sign == ' ' and len(result) > len(fmt) and sign_pos == 'begin':
-            result = result[1:]
-        elif sign == ' ' and len(result) > len(fmt) and sign_pos == 'end':
-            result = result[:-1]
-
-        if len(result) > len(fmt):
-            result = '%' + result
-
-        return result
+        return ' ' * (width - len(result)) + result
